@@ -21,7 +21,8 @@ from . import render_common as rc
 from . import super_common as sc
 
 CLAUSES = {"ClauseMeasureCount", "ClauseMeasureOrder", "ClauseNoFailure", "ClauseLayoutEventNodes", "ClauseLayoutLossMarkers", "ClauseLayoutTransfers",
-           "ClauseDrawnEventNodes", "ClauseDrawnLossMarkers", "ClauseDrawnTransferArrows", "ClauseDrawnStatementsLocated"}
+           "ClauseDrawnEventNodes", "ClauseDrawnLossMarkers", "ClauseDrawnTransferArrows", "ClauseDrawnStatementsLocated",
+           "ClauseNodesInsideSpecies"}
 
 
 def drawing_event(A, inp, m, fam, orient, seed, lab=None, rng=None):
@@ -38,6 +39,13 @@ def drawing_event(A, inp, m, fam, orient, seed, lab=None, rng=None):
         return event
     lay, text, stub = res
     image = rc.project_layout(A, lay, onodes, snodes)
+    # where the nodes are: every node and loss marker lies in the box of the species it belongs
+    # to and outside the boxes of that species' children ("placed in the species", geometrically)
+    if image["finite"]:
+        event["st"] = list(inp["st"])
+        event["tol"] = image["tol"]
+        event["boxes"] = [sp["rect"] for sp in image["species"]]
+        event["nodes"] = [[sp["sp"]] + list(br["rect"]) for sp in image["species"] for br in sp["branches"]]
     for sp in image["species"]:
         for br in sp["branches"]:
             if br["kind"] == "X":
